@@ -76,7 +76,9 @@ CHECKS = {
             "3 (C06)", SIM_NOTE),
     "C07": ("exploration",
             "Sequential engine: the pool-size monitor runs after every step of simulated histories (pool creation, "
-            "pre-allocation, size changes, deployments sharing a pool, faults). Concurrent engine: race-built real plugin with its Run() loop workers: one goroutine per pod runs filter->bind for deployments sharing "
+            "pre-allocation, size changes, deployments sharing a pool, faults). Start-up engine (startsim): the real ipamcontext.NewIPAMContext + StartInformers "
+            "(client-go informers over fake clientsets with slow list replies) in the order of pkg/ipam/server; a pool filled to its size by a first process must "
+            "not grow by the first filter/bind a restarted process answers right after StartInformers + Init returned. Concurrent engine: race-built real plugin with its Run() loop workers: one goroutine per pod runs filter->bind for deployments sharing "
             "a sized pool while an administrator goroutine changes the size / pre-allocates through the real HTTP API and a churn "
             "goroutine deletes bound pods; yields are injected at every API call of galaxy. An observer counts the IPs held under "
             "the pool after every operation and continuously; growth beyond the largest size any in-flight or just-returned "
@@ -140,7 +142,9 @@ CHECKS = {
             "Real PortMappingHandler over a strict iptables fake and real sockets: inverse law (setup+clean restores the NAT "
             "table, other pods' and foreign rules byte-identical), convergence/idempotence of the full sync from stale and "
             "foreign prior tables against a reference that does not use galaxy's chain hash, ports distinct/held/released "
-            "(bind() probes), failed open leaves nothing bound; rejected batches are violations. Thorough calibrates the fake "
+            "(bind() probes), failed open leaves nothing bound; rejected batches are violations. Concurrent stage: per pod name one opener and one closer goroutine "
+            "hammer OpenHostports/CloseHostports on one handler (late DEL of the old sandbox vs ADD of the re-created same-named pod); at every quiescent point "
+            "(both stopped, one more CloseHostports returned) no socket of the process may still hold the pod's ports. Thorough calibrates the fake "
             "against real iptables in unshare -n. Second engine (cnisim -prop C14): the daemon above the handler - ADD/DEL over the "
             "real /cni handler for pods with host ports, daemon restart (start-up pass), the GC clean-port callback, one failing "
             "iptables operation per step position followed by kubelet DEL / repeated DEL / GC clean; NAT dump, this process's "
